@@ -46,13 +46,13 @@ Faults == {"unk", "failh", "type", "range", "nofunc", "div0", "silent_unk", "sil
            \* one faulty statement whose syntax errors are reported on two lines (the first one leads)
            "syn_cascade",
            \* the input ends within an unterminated string of the failing tag: some line of the tag is named
-           "eof_unk", "eof_div0", "eof_syn",
+           "eof_unk", "eof_div0", "eof_syn", "eof_arg", "eof_let",
            \* # line comments stand between the tag's opening and the failing statement (or between two statements
            \* of the tag): a line of the tag is named, and it is the SAME line as when the comments are blank lines
            "cm_unk", "cm_two", "cm_mid", "cm_syn", "cm_emit", "cm_fn", "cm_same"}
 IsCm(f) == f \in {"cm_unk", "cm_two", "cm_mid", "cm_syn", "cm_emit", "cm_fn", "cm_same"}
-IsSyntax(f) == f \in {"syn_operand", "syn_let", "syn_paren", "syn_overflow", "syn_call", "syn_for", "eof_syn", "syn_cascade", "cm_syn"}
-IsEof(f) == f \in {"eof_unk", "eof_div0", "eof_syn"}
+IsSyntax(f) == f \in {"eof_arg", "eof_let", "syn_operand", "syn_let", "syn_paren", "syn_overflow", "syn_call", "syn_for", "eof_syn", "syn_cascade", "cm_syn"}
+IsEof(f) == f \in {"eof_unk", "eof_div0", "eof_syn", "eof_arg", "eof_let"}
 Fault(f) ==
   CASE f = "unk"    -> Emit(Id("nope"))
     [] f = "failh"  -> Emit(Call("fail", <<IntL(1)>>))
@@ -90,16 +90,26 @@ Fault(f) ==
     [] f = "cm_same"      -> RawTag(<<"<%", " ", "let", " ", "l", " ", "=", " ", "1", " ", "HASH", " ", "c", "NL", "l", " ", "/", " ", "0", " ", "%>">>)
     [] f = "eof_unk"      -> RawTag(<<"<%=", " ", "nope", " ", "+", " ", "QUOT", "a", "NL", "b">>)
     [] f = "eof_div0"     -> RawTag(<<"<%=", " ", "1", "/", "0", " ", "+", " ", "BQ", "a", "NL", "b">>)
+    \* the input ends where an operand is still expected
+    [] f = "eof_arg"      -> RawTag(<<"<%=", " ", "nosuch", "(", "1", ",", " ">>)
+    [] f = "eof_let"      -> RawTag(<<"<%", " ", "let", " ", "t", " ", "=", " ">>)
     [] f = "eof_syn"      -> RawTag(<<"<%=", " ", "nosuch", "(", "QUOT", "a", "NL", "b">>)
 
-Places == {"top", "if", "else", "for", "for2", "fn", "blk", "afterblock", "aftermlblock", "afterfor", "partial", "aftercall", "aftercontentof", "afterpartial"}
+Places == {"top", "if", "else", "for", "for2", "fn", "blk", "afterblock", "aftermlblock", "afterfor", "partial", "aftercall", "aftercontentof", "afterpartial",
+           "afterretcall", "afterbrkcall", "topend"}
 \* placements in which the fault is the right operand of + after a call that executed statements on other lines
-ExprPlaces == {"aftercall", "aftercontentof", "afterpartial"}
+\* (afterretcall / afterbrkcall: the called function is left through an explicit return / its loop through a break)
+ExprPlaces == {"aftercall", "aftercontentof", "afterpartial", "afterretcall", "afterbrkcall"}
+CountNL(ts) == Cardinality({i \in 1..Len(ts) : ts[i] = "NL"})
+NLs(k) == [i \in 1..k |-> "NL"]
+RetFn == <<Let("g", FnLit(<<>>, <<Text(<<"NL">>), Code(If(Bool(TRUE), <<Text(<<"NL">>), Ret(IntL(1))>>)), Text(<<"NL">>), Ret(IntL(2))>>)), Text(<<"NL", "NL">>)>>
+BrkFn == <<Let("g", FnLit(<<>>, <<Text(<<"NL">>), Emit(For("", "v", Arr(<<IntL(1), IntL(2)>>), <<Text(<<"NL">>), Emit(Id("v")), Code(Brk)>>)), Text(<<"NL">>), Ret(IntL(2))>>)), Text(<<"NL">>)>>
 ExprFaults == {"unk", "failh", "type", "range", "nofunc", "div0"}
 \* [before: statements before the failing tag's line (inside the construct), prog: the whole construct given the failing tag F]
 \* line of the failing tag = 1 + newlines in Unparse(pre) + newlines in `lead`
 Placed(pl, FT) ==
   CASE pl = "top"    -> [lead |-> <<>>, rest |-> <<FT, Text(<<"NL", "z">>)>>, parts |-> EmptyScope]
+    [] pl = "topend" -> [lead |-> <<>>, rest |-> <<FT>>, parts |-> EmptyScope]           \* the failing tag is the last thing in the input
     [] pl = "if"     -> [lead |-> <<"<%=", " ", "if", " ", "(", "true", ")", " ", "{", " ", "%>", "i", "NL">>,
                          rest |-> <<Emit(If(Bool(TRUE), <<Text(<<"i", "NL">>), FT, Text(<<"NL">>)>>))>>, parts |-> EmptyScope]
     [] pl = "else"   -> [lead |-> <<"NL", "NL">>,
@@ -122,6 +132,8 @@ Placed(pl, FT) ==
                          rest |-> <<Let("g", FnLit(<<>>, <<Text(<<"NL">>), Emit(IntL(1)), Text(<<"NL">>)>>)), Text(<<"NL", "NL">>), Emit(Bin("+", Call("g", <<>>), FT.e))>>, parts |-> EmptyScope]
     [] pl = "aftercontentof" -> [lead |-> <<"NL", "NL", "NL">>,
                          rest |-> <<Code(CallB("contentFor", <<Str(<<"c">>)>>, <<Text(<<"NL">>), Emit(IntL(2)), Text(<<"NL">>)>>)), Text(<<"NL">>), Emit(Bin("+", Call("contentOf", <<Str(<<"c">>)>>), FT.e))>>, parts |-> EmptyScope]
+    [] pl = "afterretcall" -> [lead |-> NLs(CountNL(Unparse(RetFn))), rest |-> RetFn \o <<Emit(Bin("+", Call("g", <<>>), FT.e))>>, parts |-> EmptyScope]
+    [] pl = "afterbrkcall" -> [lead |-> NLs(CountNL(Unparse(BrkFn))), rest |-> BrkFn \o <<Emit(Bin("+", Call("g", <<>>), FT.e))>>, parts |-> EmptyScope]
     [] pl = "afterpartial" -> [lead |-> <<"NL">>,
                          rest |-> <<Text(<<"NL">>), Emit(Bin("+", Call("partial", <<Str(<<"p">>)>>), FT.e))>>, parts |-> [p |-> <<Text(<<"NL", "NL">>), Emit(IntL(3)), Text(<<"NL">>)>>]]
     [] pl = "partial" -> [lead |-> <<>>,      \* the failing statement is in the partial; the outer error names the tag that calls it
@@ -134,7 +146,8 @@ AddItem == stage = "pre" /\ Len(pre) < MaxPre /\ \E n \in ItemNames : pre' = App
 Pick == /\ stage = "pre" /\ \E f \in Faults, pl \in Places :
               /\ (IsSyntax(f) /\ pl = "partial" => FALSE)       \* (a partial with a syntax error: inner parse error, kept out)
               /\ (pl \in ExprPlaces => f \in ExprFaults)
-              /\ (IsEof(f) \/ f = "syn_cascade" \/ f = "cm_fn" => pl = "top")
+              /\ ((IsEof(f) /\ f \notin {"eof_arg", "eof_let"}) \/ f = "syn_cascade" \/ f = "cm_fn" => pl = "top")
+              /\ (f \in {"eof_arg", "eof_let"} <=> pl = "topend")
               /\ (IsCm(f) => pl \in {"top", "if", "for", "fn", "blk", "afterblock"})                        \* everything after it is swallowed by the string
               /\ fault' = f /\ place' = pl
         /\ stage' = "done" /\ UNCHANGED pre
@@ -143,7 +156,6 @@ Spec == Init /\ [][AddItem \/ Pick]_vars
 PreStmts == Flat([i \in 1..Len(pre) |-> Item(pre[i])])
 P == Placed(place, Fault(fault))
 Prog == PreStmts \o P.rest
-CountNL(ts) == Cardinality({i \in 1..Len(ts) : ts[i] = "NL"})
 Line == 1 + CountNL(Unparse(PreStmts)) + CountNL(P.lead)
 \* the last line of the failing tag when the input ends inside it
 MaxLine == IF IsEof(fault) THEN 1 + CountNL(Unparse(Prog))
